@@ -383,7 +383,7 @@ def _pickle_stream_world(repo: Repo, pickles, log):
     pk = repo.cls("fickling.fickle.Pickled")
     opc = pk.method("opcodes") if pk is not None else None
 
-    def load_one(src_):
+    def load_one(src_, *_extra, **_kw):  # further arguments (caches, options) do not change which pickle is read next
         if src_ is not stream:
             raise PyRaise("TypeError")
         i = stream.fields["pos"]
